@@ -151,6 +151,27 @@ func EnumerateDecisions(p *Program, fn *ssa.Function, opts DecisionOpts) (paths 
 					}
 				}
 			}
+			// a region that defines a value used outside it (a field of a local struct that was
+			// turned into SSA values: the helper updates the caller's working state) decides
+			// something after all
+			if !relevant {
+				for b := range rg.Blocks {
+					if b == rg.Cont {
+						continue
+					}
+					for _, in := range b.Instrs {
+						v, isVal := in.(ssa.Value)
+						if !isVal || v.Referrers() == nil {
+							continue
+						}
+						for _, ref := range *v.Referrers() {
+							if rb := ref.Block(); rb != nil && (!rg.Blocks[rb] || rb == rg.Cont) {
+								relevant = true
+							}
+						}
+					}
+				}
+			}
 			if !relevant {
 				skipTo[rg.Entry] = rg.Cont
 			}
